@@ -275,8 +275,8 @@ impl Check for C06 {
             // the same single faults under adversarial schedules (sampled)
             let (bases, cases) = (bases.clone(), cases.clone());
             let count = match tier {
-                Tier::Quick => 40_000,
-                Tier::Thorough => 600_000,
+                Tier::Quick => 200_000,
+                Tier::Thorough => 2_400_000,
             };
             fams.push(Family::new("single_fault_random_schedule", count, false, move |_i, rng| {
                 let (bi, case) = &cases[rng.usize_below(cases.len())];
@@ -293,8 +293,8 @@ impl Check for C06 {
         }
         {
             let count = match tier {
-                Tier::Quick => 40_000,
-                Tier::Thorough => 1_000_000,
+                Tier::Quick => 200_000,
+                Tier::Thorough => 4_000_000,
             };
             fams.push(Family::new("multi_fault_random", count, false, move |_i, rng| {
                 let mut p = random_plan(rng, 12);
